@@ -14,9 +14,16 @@ is an empty slot, and between a resident's home slot and its slot there is no em
 * `set_existing_*` — overwriting a resident's value changes that key only and keeps the invariant;
 * `new_inv` — a fresh table satisfies the invariant.
 
-PARTIAL: that `insert` (the displacement walk) and `resize` preserve `ReadInv` is not yet proved
-in Lean; the invariant is therefore also *checked on the real table* after every operation by
-the correspondence harness (slot-for-slot equality with the model, and a native Go map mirror).
+Write side (second half of this file): the displacement walk of `insert` — for any outcome of
+its robin-hood distance comparisons — and `resize` preserve the core invariant and change the
+residents by exactly the inserted pair (`insertLoop_post`, `insertRaw_post`, `resize_post`);
+`Set` preserves the table invariant `Inv` (core + `total` = number of residents + load ≤ 3/4,
+which guarantees the empty slot) and updates the residents like a finite map (`set_post`,
+`set_get_same`, `set_get_other`); from a fresh table (`new_Inv`) any history of `Set`s answers
+every `Get` like the finite map with those writes (`history_refines`).
+
+Not proved: `Delete` (backward shift) — the VM never deletes from a field table; it is covered by
+the slot-for-slot correspondence only.
 -/
 namespace Goat.Props.C12
 open Goat.IntMap
@@ -251,3 +258,808 @@ end Goat.Props.C12
 #print axioms Goat.Props.C12.get_present
 #print axioms Goat.Props.C12.get_absent
 #print axioms Goat.Props.C12.new_inv
+
+/-! ## The write side: insertion (displacement walk), resize, and refinement to a finite map -/
+
+namespace Goat.Props.C12
+open Goat.IntMap
+variable {V : Type}
+
+def Emp (pairs : List (Pair V)) (s : Nat) : Prop := ∃ p, pairs[s]? = some p ∧ p.distance = 0
+
+/-- no empty slot in the cyclic interval [h, s) -/
+def Clear (pairs : List (Pair V)) (h s : Nat) : Prop :=
+  ∀ j, j < wrap pairs.length (s + pairs.length - h) → Occ pairs (wrap pairs.length (h + j))
+
+def Res (pairs : List (Pair V)) (k : Int) (v : V) : Prop :=
+  ∃ (s : Nat) (p : Pair V), pairs[s]? = some p ∧ p.distance ≠ 0 ∧ p.key = k ∧ p.value = v
+
+structure Core (pairs : List (Pair V)) : Prop where
+  size_pos : 0 < pairs.length
+  unique : ∀ (s t : Nat) (p q : Pair V), pairs[s]? = some p → pairs[t]? = some q → p.distance ≠ 0 → q.distance ≠ 0 →
+    p.key = q.key → s = t
+  nogap : ∀ (s : Nat) (p : Pair V), pairs[s]? = some p → p.distance ≠ 0 → Clear pairs (slot pairs.length p.key) s
+
+theorem readInv_iff (pairs : List (Pair V)) : ReadInv pairs ↔ Core pairs ∧ ∃ e, Emp pairs e := by
+  constructor
+  · intro h
+    exact ⟨⟨h.size_pos, h.unique, h.nogap⟩, h.has_empty⟩
+  · intro ⟨c, e⟩
+    exact ⟨c.size_pos, e, c.unique, c.nogap⟩
+
+theorem wrap_lt {n x : Nat} (_hn : 0 < n) (hx : x < 2 * n) : wrap n x < n := by
+  unfold wrap; split <;> omega
+
+theorem clear_step (pairs : List (Pair V)) (h s : Nat) (hh : h < pairs.length) (hs : s < pairs.length)
+    (hc : Clear pairs h s) (ho : Occ pairs s) (hne : wrap pairs.length (s + 1) ≠ h) :
+    Clear pairs h (wrap pairs.length (s + 1)) := by
+  intro j hj
+  have hd : wrap pairs.length (wrap pairs.length (s + 1) + pairs.length - h) =
+      wrap pairs.length (s + pairs.length - h) + 1 := by
+    unfold wrap at hne ⊢
+    split at hne <;> (repeat' split) <;> omega
+  rw [hd] at hj
+  by_cases hlt : j < wrap pairs.length (s + pairs.length - h)
+  · exact hc j hlt
+  · have : j = wrap pairs.length (s + pairs.length - h) := by omega
+    have hland : wrap pairs.length (h + j) = s := by
+      rw [this]; unfold wrap; (repeat' split) <;> omega
+    rw [hland]; exact ho
+
+theorem full_circle (pairs : List (Pair V)) (h s : Nat) (hh : h < pairs.length) (hs : s < pairs.length)
+    (hc : Clear pairs h s) (ho : Occ pairs s) (heq : wrap pairs.length (s + 1) = h) :
+    ∀ e, e < pairs.length → Occ pairs e := by
+  intro e he
+  obtain ⟨j, hj, hje⟩ := reach_any pairs.length h e hh he
+  by_cases hlt : j < wrap pairs.length (s + pairs.length - h)
+  · rw [← hje]; exact hc j hlt
+  · have hland : e = s := by
+      rw [← hje]
+      unfold wrap at heq hlt ⊢
+      split at heq <;> split at hlt <;> (repeat' split) <;> omega
+    rw [hland]; exact ho
+
+theorem not_occ_of_emp (pairs : List (Pair V)) (e : Nat) (h1 : Emp pairs e) (h2 : Occ pairs e) : False := by
+  obtain ⟨p, hp, hd⟩ := h1
+  obtain ⟨q, hq, hqd⟩ := h2
+  rw [hp] at hq; cases hq; exact hqd hd
+
+theorem occ_set (pairs : List (Pair V)) (idx : Nat) (x : Pair V) (hi : idx < pairs.length) (t : Nat) :
+    Occ (pairs.set idx x) t ↔ (if t = idx then x.distance ≠ 0 else Occ pairs t) := by
+  unfold Occ
+  by_cases ht : t = idx
+  · subst ht
+    simp [List.getElem?_set_self hi]
+  · simp [ht, List.getElem?_set_ne (Ne.symm ht)]
+
+theorem emp_set (pairs : List (Pair V)) (idx : Nat) (x : Pair V) (hi : idx < pairs.length) (t : Nat) :
+    Emp (pairs.set idx x) t ↔ (if t = idx then x.distance = 0 else Emp pairs t) := by
+  unfold Emp
+  by_cases ht : t = idx
+  · subst ht
+    simp [List.getElem?_set_self hi]
+  · simp [ht, List.getElem?_set_ne (Ne.symm ht)]
+
+/-- `Clear` only depends on which slots are occupied -/
+theorem clear_mono (pairs pairs' : List (Pair V)) (hl : pairs'.length = pairs.length)
+    (hm : ∀ t, Occ pairs t → Occ pairs' t) (h s : Nat) (hc : Clear pairs h s) : Clear pairs' h s := by
+  intro j hj
+  rw [hl] at hj ⊢
+  exact hm _ (hc j hj)
+
+
+
+theorem core_set (pairs : List (Pair V)) (hc : Core pairs) (idx : Nat) (x : Pair V) (hi : idx < pairs.length)
+    (hx : x.distance ≠ 0)
+    (hfresh : ∀ (s : Nat) (p : Pair V), s ≠ idx → pairs[s]? = some p → p.distance ≠ 0 → p.key ≠ x.key)
+    (hclr : Clear pairs (slot pairs.length x.key) idx) : Core (pairs.set idx x) := by
+  have hl : (pairs.set idx x).length = pairs.length := List.length_set ..
+  have hmono : ∀ t, Occ pairs t → Occ (pairs.set idx x) t := by
+    intro t ht
+    rw [occ_set pairs idx x hi t]
+    split
+    · exact hx
+    · exact ht
+  refine ⟨by rw [hl]; exact hc.size_pos, ?_, ?_⟩
+  · intro s t p q hp hq hpd hqd hk
+    by_cases hs : s = idx
+    · by_cases ht : t = idx
+      · rw [hs, ht]
+      · subst hs
+        rw [List.getElem?_set_self hi] at hp; cases hp
+        rw [List.getElem?_set_ne (Ne.symm ht)] at hq
+        exact absurd hk.symm (hfresh t q ht hq hqd)
+    · by_cases ht : t = idx
+      · subst ht
+        rw [List.getElem?_set_self hi] at hq; cases hq
+        rw [List.getElem?_set_ne (Ne.symm hs)] at hp
+        exact absurd hk (hfresh s p hs hp hpd)
+      · rw [List.getElem?_set_ne (Ne.symm hs)] at hp
+        rw [List.getElem?_set_ne (Ne.symm ht)] at hq
+        exact hc.unique s t p q hp hq hpd hqd hk
+  · intro s p hp hpd
+    rw [hl]
+    by_cases hs : s = idx
+    · subst hs
+      rw [List.getElem?_set_self hi] at hp; cases hp
+      exact clear_mono pairs _ hl hmono _ _ hclr
+    · rw [List.getElem?_set_ne (Ne.symm hs)] at hp
+      exact clear_mono pairs _ hl hmono _ _ (hc.nogap s p hp hpd)
+
+def countOcc : List (Pair V) → Nat
+  | [] => 0
+  | p :: t => (if p.distance = 0 then 0 else 1) + countOcc t
+
+theorem countOcc_set (pairs : List (Pair V)) (idx : Nat) (x old : Pair V) (ho : pairs[idx]? = some old) :
+    countOcc (pairs.set idx x) + (if old.distance = 0 then 0 else 1) =
+      countOcc pairs + (if x.distance = 0 then 0 else 1) := by
+  induction pairs generalizing idx with
+  | nil => simp at ho
+  | cons a t ih =>
+    cases idx with
+    | zero =>
+      simp at ho; subst ho
+      simp only [List.set_cons_zero, countOcc]
+      omega
+    | succ i =>
+      simp only [List.getElem?_cons_succ] at ho
+      have := ih i ho
+      simp only [List.set_cons_succ, countOcc]
+      omega
+
+/-- what `insert` must achieve -/
+structure Post (pairs : List (Pair V)) (key : Int) (value : V) (pairs' : List (Pair V)) : Prop where
+  len : pairs'.length = pairs.length
+  core : Core pairs'
+  res : ∀ k v, Res pairs' k v ↔ (Res pairs k v ∨ (k = key ∧ v = value))
+  count : countOcc pairs' = countOcc pairs + 1
+
+theorem res_set (pairs : List (Pair V)) (idx : Nat) (x : Pair V) (hi : idx < pairs.length) (k : Int) (v : V) :
+    Res (pairs.set idx x) k v ↔
+      ((x.distance ≠ 0 ∧ x.key = k ∧ x.value = v) ∨
+       ∃ (s : Nat) (p : Pair V), s ≠ idx ∧ pairs[s]? = some p ∧ p.distance ≠ 0 ∧ p.key = k ∧ p.value = v) := by
+  constructor
+  · intro ⟨s, p, hp, hd, hk, hv⟩
+    by_cases hs : s = idx
+    · subst hs
+      rw [List.getElem?_set_self hi] at hp; cases hp
+      exact Or.inl ⟨hd, hk, hv⟩
+    · rw [List.getElem?_set_ne (Ne.symm hs)] at hp
+      exact Or.inr ⟨s, p, hs, hp, hd, hk, hv⟩
+  · intro h
+    rcases h with ⟨hd, hk, hv⟩ | ⟨s, p, hs, hp, hd, hk, hv⟩
+    · exact ⟨idx, x, List.getElem?_set_self hi, hd, hk, hv⟩
+    · exact ⟨s, p, by rw [List.getElem?_set_ne (Ne.symm hs)]; exact hp, hd, hk, hv⟩
+
+
+theorem mod_succ_eq_wrap (n idx : Nat) (hn : 0 < n) (hi : idx < n) : (idx + 1) % n = wrap n (idx + 1) :=
+  mod_eq_wrap hn (by omega)
+
+/-- the next empty slot is still ahead after stepping over an occupied one -/
+theorem emp_ahead (pairs : List (Pair V)) (idx d : Nat) (hi : idx < pairs.length) (hd : d < pairs.length)
+    (he : Emp pairs (wrap pairs.length (idx + d))) (ho : Occ pairs idx) :
+    d ≠ 0 ∧ wrap pairs.length (idx + d) ≠ idx ∧
+    wrap pairs.length (wrap pairs.length (idx + 1) + (d - 1)) = wrap pairs.length (idx + d) := by
+  have hd0 : d ≠ 0 := by
+    intro e; subst e
+    have : wrap pairs.length (idx + 0) = idx := by simp [wrap, hi]
+    rw [this] at he
+    exact not_occ_of_emp pairs idx he ho
+  refine ⟨hd0, ?_, ?_⟩
+  · unfold wrap; split <;> omega
+  · unfold wrap; (repeat' split) <;> omega
+
+theorem insertLoop_post : ∀ (fuel : Nat) (pairs : List (Pair V)) (i : Nat) (c : Pair V),
+    Core pairs → c.distance ≠ 0 →
+    (∀ (s : Nat) (p : Pair V), pairs[s]? = some p → p.distance ≠ 0 → p.key ≠ c.key) →
+    Clear pairs (slot pairs.length c.key) (i % pairs.length) →
+    (∃ d, d < fuel ∧ d < pairs.length ∧ Emp pairs (wrap pairs.length (i % pairs.length + d))) →
+    ∃ pairs', insertLoop fuel pairs i c = some pairs' ∧ Post pairs c.key c.value pairs' := by
+  intro fuel
+  induction fuel with
+  | zero => intro pairs i c _ _ _ _ ⟨d, hd, _⟩; omega
+  | succ fuel ih =>
+    intro pairs i c hcore hcd hfresh hclr ⟨d, hdf, hdn, hemp⟩
+    have hn := hcore.size_pos
+    have hidx : i % pairs.length < pairs.length := Nat.mod_lt _ hn
+    generalize hI : i % pairs.length = idx at hidx hclr hemp
+    obtain ⟨p, hp⟩ : ∃ p, pairs[idx]? = some p := ⟨pairs[idx], List.getElem?_eq_getElem hidx⟩
+    have hhome := slot_lt hn c.key
+    rw [insertLoop]
+    simp only [hI, hp]
+    by_cases hlt : p.distance < c.distance
+    · simp only [hlt, if_true]
+      by_cases hp0 : p.distance = 0
+      · -- the walk ends: the carried pair takes the empty slot
+        simp only [hp0, if_true]
+        refine ⟨_, rfl, ?_⟩
+        have hcs := core_set pairs hcore idx c hidx hcd (fun s q _ hq hqd => hfresh s q hq hqd) hclr
+        refine ⟨List.length_set .., hcs, ?_, ?_⟩
+        · intro k v
+          rw [res_set pairs idx c hidx k v]
+          constructor
+          · rintro (⟨_, hk, hv⟩ | ⟨s, q, _, hq, hqd, hk, hv⟩)
+            · exact Or.inr ⟨hk.symm, hv.symm⟩
+            · exact Or.inl ⟨s, q, hq, hqd, hk, hv⟩
+          · rintro (⟨s, q, hq, hqd, hk, hv⟩ | ⟨hk, hv⟩)
+            · refine Or.inr ⟨s, q, ?_, hq, hqd, hk, hv⟩
+              intro e; subst e; rw [hp] at hq; cases hq; exact hqd hp0
+            · exact Or.inl ⟨hcd, hk.symm, hv.symm⟩
+        · have := countOcc_set pairs idx c p hp
+          simp only [hp0, hcd, if_true, if_false] at this
+          omega
+      · -- swap: the resident is carried on
+        simp only [hp0, if_false]
+        have hocc : Occ pairs idx := ⟨p, hp, hp0⟩
+        have hcs := core_set pairs hcore idx c hidx hcd (fun s q _ hq hqd => hfresh s q hq hqd) hclr
+        have hl1 : (pairs.set idx c).length = pairs.length := List.length_set ..
+        obtain ⟨hd0, hne, hwd⟩ := emp_ahead pairs idx d hidx hdn hemp hocc
+        have hmono : ∀ t, Occ pairs t → Occ (pairs.set idx c) t := by
+          intro t ht; rw [occ_set pairs idx c hidx t]; split
+          · exact hcd
+          · exact ht
+        have hph := slot_lt hn p.key
+        have hnf : wrap pairs.length (idx + 1) ≠ slot pairs.length p.key := by
+          intro heq
+          have hall := full_circle pairs _ idx hph hidx (hcore.nogap idx p hp hp0) hocc heq
+          obtain ⟨q, hq, hqd⟩ := hemp
+          have he : wrap pairs.length (idx + d) < pairs.length := (List.getElem?_eq_some_iff.mp hq).1
+          exact not_occ_of_emp pairs _ ⟨q, hq, hqd⟩ (hall _ he)
+        have hclr' : Clear (pairs.set idx c) (slot (pairs.set idx c).length p.key) ((idx + 1) % (pairs.set idx c).length) := by
+          rw [hl1, mod_succ_eq_wrap _ _ hn hidx]
+          exact clear_mono pairs _ hl1 hmono _ _
+            (clear_step pairs _ idx hph hidx (hcore.nogap idx p hp hp0) hocc hnf)
+        have hfresh' : ∀ (s : Nat) (q : Pair V), (pairs.set idx c)[s]? = some q → q.distance ≠ 0 →
+            q.key ≠ ({ p with distance := p.distance + 1 } : Pair V).key := by
+          intro s q hq hqd
+          show q.key ≠ p.key
+          by_cases hs : s = idx
+          · subst hs
+            rw [List.getElem?_set_self hidx] at hq; cases hq
+            exact fun e => hfresh s p hp hp0 e.symm
+          · rw [List.getElem?_set_ne (Ne.symm hs)] at hq
+            intro e
+            exact hs (hcore.unique s idx q p hq hp hqd hp0 e)
+        have hemp' : ∃ d', d' < fuel ∧ d' < (pairs.set idx c).length ∧
+            Emp (pairs.set idx c) (wrap (pairs.set idx c).length ((idx + 1) % (pairs.set idx c).length + d')) := by
+          refine ⟨d - 1, by omega, by rw [hl1]; omega, ?_⟩
+          rw [hl1, mod_succ_eq_wrap _ _ hn hidx, hwd, emp_set pairs idx c hidx]
+          simp only [hne, if_false]
+          exact hemp
+        obtain ⟨pairs', hrun, hpost⟩ := ih (pairs.set idx c) (idx + 1) { p with distance := p.distance + 1 } hcs
+          (by simp) hfresh' hclr' hemp'
+        refine ⟨pairs', hrun, ?_⟩
+        refine ⟨hpost.len.trans hl1, hpost.core, ?_, ?_⟩
+        · intro k v
+          rw [hpost.res k v, res_set pairs idx c hidx k v]
+          constructor
+          · rintro ((⟨_, hk, hv⟩ | ⟨s, q, _, hq, hqd, hk, hv⟩) | ⟨hk, hv⟩)
+            · exact Or.inr ⟨hk.symm, hv.symm⟩
+            · exact Or.inl ⟨s, q, hq, hqd, hk, hv⟩
+            · exact Or.inl ⟨idx, p, hp, hp0, hk.symm, hv.symm⟩
+          · rintro (⟨s, q, hq, hqd, hk, hv⟩ | ⟨hk, hv⟩)
+            · by_cases hs : s = idx
+              · subst hs; rw [hp] at hq; cases hq
+                exact Or.inr ⟨hk.symm, hv.symm⟩
+              · exact Or.inl (Or.inr ⟨s, q, hs, hq, hqd, hk, hv⟩)
+            · exact Or.inl (Or.inl ⟨hcd, hk.symm, hv.symm⟩)
+        · have := countOcc_set pairs idx c p hp
+          simp only [hp0, hcd, if_false] at this
+          have h2 := hpost.count
+          omega
+    · -- pass: the resident is at least as far from home
+      simp only [hlt, if_false]
+      have hp0 : p.distance ≠ 0 := by omega
+      have hocc : Occ pairs idx := ⟨p, hp, hp0⟩
+      obtain ⟨hd0, hne, hwd⟩ := emp_ahead pairs idx d hidx hdn hemp hocc
+      have hnf : wrap pairs.length (idx + 1) ≠ slot pairs.length c.key := by
+        intro heq
+        have hall := full_circle pairs _ idx hhome hidx hclr hocc heq
+        obtain ⟨q, hq, hqd⟩ := hemp
+        have he : wrap pairs.length (idx + d) < pairs.length := (List.getElem?_eq_some_iff.mp hq).1
+        exact not_occ_of_emp pairs _ ⟨q, hq, hqd⟩ (hall _ he)
+      have hclr' : Clear pairs (slot pairs.length ({ c with distance := c.distance + 1 } : Pair V).key) ((idx + 1) % pairs.length) := by
+        rw [mod_succ_eq_wrap _ _ hn hidx]
+        exact clear_step pairs _ idx hhome hidx hclr hocc hnf
+      have hemp' : ∃ d', d' < fuel ∧ d' < pairs.length ∧ Emp pairs (wrap pairs.length ((idx + 1) % pairs.length + d')) := by
+        refine ⟨d - 1, by omega, by omega, ?_⟩
+        rw [mod_succ_eq_wrap _ _ hn hidx, hwd]
+        exact hemp
+      obtain ⟨pairs', hrun, hpost⟩ := ih pairs (idx + 1) { c with distance := c.distance + 1 } hcore
+        (by simp) (fun s q hq hqd => hfresh s q hq hqd) hclr' hemp'
+      exact ⟨pairs', hrun, hpost⟩
+
+
+theorem clear_self (pairs : List (Pair V)) (h : Nat) (_hh : h < pairs.length) : Clear pairs h h := by
+  intro j hj
+  have : wrap pairs.length (h + pairs.length - h) = 0 := by unfold wrap; split <;> omega
+  omega
+
+/-- **insertRaw_post.** Inserting a key that is not resident into a table that satisfies the read
+    invariant succeeds and yields a table with the same residents plus the new one, satisfying the
+    core invariant again. -/
+theorem insertRaw_post (pairs : List (Pair V)) (hinv : ReadInv pairs) (key : Int) (value : V)
+    (hfresh : ∀ (s : Nat) (p : Pair V), pairs[s]? = some p → p.distance ≠ 0 → p.key ≠ key) :
+    ∃ pairs', insertRaw pairs key value = some pairs' ∧ Post pairs key value pairs' := by
+  have hn := hinv.size_pos
+  have hh := slot_lt hn key
+  obtain ⟨e, pe, hpe, hde⟩ := hinv.has_empty
+  have he : e < pairs.length := (List.getElem?_eq_some_iff.mp hpe).1
+  obtain ⟨j, hj, hje⟩ := reach_any pairs.length (slot pairs.length key) e hh he
+  have hmod : slot pairs.length key % pairs.length = slot pairs.length key := Nat.mod_eq_of_lt hh
+  unfold insertRaw
+  exact insertLoop_post _ pairs _ { distance := 1, key := key, value := value }
+    ((readInv_iff pairs).mp hinv).1 (by simp) hfresh
+    (by rw [hmod]; exact clear_self pairs _ hh)
+    ⟨j, by omega, hj, by rw [hmod, hje]; exact ⟨pe, hpe, hde⟩⟩
+
+theorem countOcc_le (pairs : List (Pair V)) : countOcc pairs ≤ pairs.length := by
+  induction pairs with
+  | nil => simp [countOcc]
+  | cons a t ih => simp only [countOcc, List.length_cons]; split <;> omega
+
+/-- a table that is not full has an empty slot -/
+theorem emp_of_count (pairs : List (Pair V)) (h : countOcc pairs < pairs.length) : ∃ e, Emp pairs e := by
+  induction pairs with
+  | nil => simp [countOcc] at h
+  | cons a t ih =>
+    by_cases ha : a.distance = 0
+    · exact ⟨0, a, by simp, ha⟩
+    · simp only [countOcc, ha, if_false, List.length_cons] at h
+      obtain ⟨e, p, hp, hd⟩ := ih (by omega)
+      exact ⟨e + 1, p, by simpa using hp, hd⟩
+
+theorem countOcc_replicate_empty [Inhabited V] (n : Nat) : countOcc (List.replicate n (emptyPair (V := V))) = 0 := by
+  induction n with
+  | zero => rfl
+  | succ n ih =>
+    rw [List.replicate_succ, countOcc, ih]
+    simp [emptyPair]
+
+
+/-! ### overwriting the value of a resident (Set on an existing key, Assign) -/
+
+theorem core_update (pairs : List (Pair V)) (hc : Core pairs) (i : Nat) (p : Pair V) (hp : pairs[i]? = some p)
+    (v : V) : Core (pairs.set i { p with value := v }) := by
+  have hi : i < pairs.length := (List.getElem?_eq_some_iff.mp hp).1
+  have hl : (pairs.set i { p with value := v }).length = pairs.length := List.length_set ..
+  have hget : ∀ (s : Nat) (q : Pair V), (pairs.set i { p with value := v })[s]? = some q →
+      ∃ q0, pairs[s]? = some q0 ∧ q0.distance = q.distance ∧ q0.key = q.key := by
+    intro s q hq
+    by_cases hs : s = i
+    · subst hs
+      rw [List.getElem?_set_self hi] at hq; cases hq
+      exact ⟨p, hp, rfl, rfl⟩
+    · rw [List.getElem?_set_ne (Ne.symm hs)] at hq
+      exact ⟨q, hq, rfl, rfl⟩
+  have hocc : ∀ t, Occ pairs t → Occ (pairs.set i { p with value := v }) t := by
+    intro t ⟨q, hq, hqd⟩
+    by_cases ht : t = i
+    · subst ht
+      rw [hp] at hq; cases hq
+      exact ⟨_, List.getElem?_set_self hi, hqd⟩
+    · exact ⟨q, by rw [List.getElem?_set_ne (Ne.symm ht)]; exact hq, hqd⟩
+  refine ⟨by rw [hl]; exact hc.size_pos, ?_, ?_⟩
+  · intro s t a b ha hb had hbd hk
+    obtain ⟨a0, ha0, e1, e2⟩ := hget s a ha
+    obtain ⟨b0, hb0, e3, e4⟩ := hget t b hb
+    exact hc.unique s t a0 b0 ha0 hb0 (by omega) (by omega) (by rw [e2, e4]; exact hk)
+  · intro s a ha had
+    obtain ⟨a0, ha0, e1, e2⟩ := hget s a ha
+    rw [hl, ← e2]
+    exact clear_mono pairs _ hl hocc _ _ (hc.nogap s a0 ha0 (by omega))
+
+theorem countOcc_update (pairs : List (Pair V)) (i : Nat) (p : Pair V) (hp : pairs[i]? = some p) (v : V) :
+    countOcc (pairs.set i { p with value := v }) = countOcc pairs := by
+  have := countOcc_set pairs i { p with value := v } p hp
+  simp only [] at this
+  omega
+
+theorem res_update (pairs : List (Pair V)) (hc : Core pairs) (i : Nat) (p : Pair V) (hp : pairs[i]? = some p)
+    (hd : p.distance ≠ 0) (v : V) (k : Int) (w : V) :
+    Res (pairs.set i { p with value := v }) k w ↔ ((k = p.key ∧ w = v) ∨ (k ≠ p.key ∧ Res pairs k w)) := by
+  have hi : i < pairs.length := (List.getElem?_eq_some_iff.mp hp).1
+  rw [res_set pairs i _ hi k w]
+  constructor
+  · rintro (⟨_, hk, hv⟩ | ⟨s, q, hs, hq, hqd, hk, hv⟩)
+    · exact Or.inl ⟨hk.symm, hv.symm⟩
+    · refine Or.inr ⟨?_, s, q, hq, hqd, hk, hv⟩
+      intro e
+      exact hs (hc.unique s i q p hq hp hqd hd (by rw [hk, e]))
+  · rintro (⟨hk, hv⟩ | ⟨hne, s, q, hq, hqd, hk, hv⟩)
+    · exact Or.inl ⟨hd, hk.symm, hv.symm⟩
+    · refine Or.inr ⟨s, q, ?_, hq, hqd, hk, hv⟩
+      intro e; subst e
+      rw [hp] at hq; cases hq
+      exact hne hk.symm
+
+/-! ### the table-level invariant -/
+
+structure Inv (m : IM V) : Prop where
+  core : Core m.pairs
+  total_eq : m.total = countOcc m.pairs
+  load : m.total ≤ m.max
+  room : 4 ≤ m.size
+
+theorem max_lt_size (m : IM V) (h : 0 < m.size) : m.max < m.size := by
+  unfold IM.max
+  have h3 : Gen.intMapMaxNum = 3 := by decide
+  have h4 : Gen.intMapMaxDen = 4 := by decide
+  rw [h3, h4]
+  omega
+
+theorem Inv.readInv {m : IM V} (h : Inv m) : ReadInv m.pairs := by
+  rw [readInv_iff]
+  refine ⟨h.core, emp_of_count m.pairs ?_⟩
+  have := max_lt_size m h.core.size_pos
+  have h1 := h.total_eq
+  have h2 := h.load
+  unfold IM.size at this
+  omega
+
+/-- under the invariant, `Get` is the lookup of the residents -/
+theorem get_iff_res (m : IM V) (h : Inv m) (k : Int) (v : V) : m.get k = some v ↔ Res m.pairs k v := by
+  constructor
+  · intro hg
+    by_cases hex : ∃ (s : Nat) (q : Pair V), m.pairs[s]? = some q ∧ q.distance ≠ 0 ∧ q.key = k
+    · obtain ⟨s, q, hq, hqd, hk⟩ := hex
+      have := get_present m h.readInv s q hq hqd
+      rw [hk, hg] at this
+      exact ⟨s, q, hq, hqd, hk, (Option.some.inj this).symm⟩
+    · have := get_absent m h.readInv k (fun s q hq hqd hk => hex ⟨s, q, hq, hqd, hk⟩)
+      rw [this] at hg; cases hg
+  · intro ⟨s, q, hq, hqd, hk, hv⟩
+    have := get_present m h.readInv s q hq hqd
+    rw [hk, hv] at this
+    exact this
+
+
+/-! ### resize: re-inserting every resident into a fresh table -/
+
+def occB (p : Pair V) : Bool := decide (p.distance ≠ 0)
+
+theorem filter_len (pairs : List (Pair V)) : (pairs.filter occB).length = countOcc pairs := by
+  induction pairs with
+  | nil => rfl
+  | cons a t ih =>
+    by_cases ha : a.distance = 0
+    · simp [occB, countOcc, ha, ← ih]
+    · simp [occB, countOcc, ha, ← ih]; omega
+
+theorem filter_nodup_keys (pairs : List (Pair V))
+    (hu : ∀ (s t : Nat) (p q : Pair V), pairs[s]? = some p → pairs[t]? = some q → p.distance ≠ 0 → q.distance ≠ 0 →
+      p.key = q.key → s = t) : ((pairs.filter occB).map (·.key)).Nodup := by
+  induction pairs with
+  | nil => simp
+  | cons a t ih =>
+    have hu' : ∀ (s u : Nat) (p q : Pair V), t[s]? = some p → t[u]? = some q → p.distance ≠ 0 → q.distance ≠ 0 →
+        p.key = q.key → s = u := by
+      intro s u p q hp hq hpd hqd hk
+      have := hu (s + 1) (u + 1) p q (by simpa using hp) (by simpa using hq) hpd hqd hk
+      omega
+    by_cases ha : a.distance = 0
+    · simp only [List.filter_cons, occB, ha, ne_eq, not_true_eq_false, decide_false]
+      exact ih hu'
+    · simp only [List.filter_cons, occB, ha, ne_eq, not_false_eq_true, decide_true, if_true, List.map_cons,
+        List.nodup_cons]
+      refine ⟨?_, ih hu'⟩
+      intro hmem
+      obtain ⟨q, hq, hk⟩ := List.mem_map.mp hmem
+      obtain ⟨hqt, hqo⟩ := List.mem_filter.mp hq
+      obtain ⟨j, hj⟩ := List.mem_iff_getElem?.mp hqt
+      have hqd : q.distance ≠ 0 := by simpa [occB] using hqo
+      have := hu 0 (j + 1) a q (by simp) (by simpa using hj) ha hqd hk.symm
+      omega
+
+theorem mem_filter_iff (pairs : List (Pair V)) (p : Pair V) :
+    p ∈ pairs.filter occB ↔ ∃ (s : Nat), pairs[s]? = some p ∧ p.distance ≠ 0 := by
+  rw [List.mem_filter, List.mem_iff_getElem?]
+  constructor
+  · rintro ⟨⟨s, hs⟩, ho⟩
+    exact ⟨s, hs, by simpa [occB] using ho⟩
+  · rintro ⟨s, hs, hd⟩
+    exact ⟨⟨s, hs⟩, by simpa [occB] using hd⟩
+
+def reinsert [Inhabited V] (acc : IM V) (p : Pair V) : Option (IM V) :=
+  (insertRaw acc.pairs p.key p.value).map fun ps => { acc with pairs := ps }
+
+theorem fold_insert [Inhabited V] (R : List (Pair V)) : ∀ (acc : IM V), Core acc.pairs →
+    countOcc acc.pairs + R.length < acc.pairs.length → (R.map (·.key)).Nodup →
+    (∀ p ∈ R, ∀ (s : Nat) (q : Pair V), acc.pairs[s]? = some q → q.distance ≠ 0 → q.key ≠ p.key) →
+    ∃ acc', R.foldlM reinsert acc = some acc' ∧ Core acc'.pairs ∧ acc'.pairs.length = acc.pairs.length ∧
+      acc'.total = acc.total ∧ countOcc acc'.pairs = countOcc acc.pairs + R.length ∧
+      ∀ k v, Res acc'.pairs k v ↔ (Res acc.pairs k v ∨ ∃ p ∈ R, p.key = k ∧ p.value = v) := by
+  induction R with
+  | nil =>
+    intro acc hc _ _ _
+    exact ⟨acc, rfl, hc, rfl, rfl, by simp, by simp⟩
+  | cons p R ih =>
+    intro acc hc hcount hnd hfresh
+    simp only [List.map_cons, List.nodup_cons] at hnd
+    simp only [List.length_cons] at hcount
+    have hri : ReadInv acc.pairs := (readInv_iff _).mpr ⟨hc, emp_of_count _ (by omega)⟩
+    obtain ⟨ps, hins, hpost⟩ := insertRaw_post acc.pairs hri p.key p.value
+      (fun s q hq hqd => hfresh p (by simp) s q hq hqd)
+    have hstep : reinsert acc p = some { acc with pairs := ps } := by simp [reinsert, hins]
+    obtain ⟨acc', hfold, hc', hl', ht', hcnt', hres'⟩ := ih { acc with pairs := ps } hpost.core
+      (by simp only []; rw [hpost.len, hpost.count]; omega) hnd.2
+      (by
+        intro p' hp' s q hq hqd
+        have hr : Res ps q.key q.value := ⟨s, q, hq, hqd, rfl, rfl⟩
+        rcases (hpost.res q.key q.value).mp hr with ⟨s0, q0, hq0, hq0d, hk0, _⟩ | ⟨hk, _⟩
+        · rw [← hk0]; exact hfresh p' (by simp [hp']) s0 q0 hq0 hq0d
+        · rw [hk]
+          intro e
+          exact hnd.1 (List.mem_map.mpr ⟨p', hp', e.symm⟩))
+    refine ⟨acc', ?_, hc', hl'.trans hpost.len, ht', ?_, ?_⟩
+    · simp [List.foldlM_cons, hstep, hfold]
+    · rw [hcnt', hpost.count]; simp only [List.length_cons]; omega
+    · intro k v
+      rw [hres' k v, hpost.res k v]
+      constructor
+      · rintro ((h | ⟨hk, hv⟩) | ⟨q, hq, hk, hv⟩)
+        · exact Or.inl h
+        · exact Or.inr ⟨p, by simp, hk.symm, hv.symm⟩
+        · exact Or.inr ⟨q, by simp [hq], hk, hv⟩
+      · rintro (h | ⟨q, hq, hk, hv⟩)
+        · exact Or.inl (Or.inl h)
+        · rcases List.mem_cons.mp hq with rfl | hq'
+          · exact Or.inl (Or.inr ⟨hk.symm, hv.symm⟩)
+          · exact Or.inr ⟨q, hq', hk, hv⟩
+
+
+theorem resize_unfold [Inhabited V] (m : IM V) (size : Nat) :
+    m.resize size =
+      (if (if size < Gen.intMapMin then Gen.intMapMin else size) = m.size then some m
+       else (m.pairs.filter occB).foldlM reinsert (mkTable (if size < Gen.intMapMin then Gen.intMapMin else size) m.total)) := rfl
+
+theorem mkTable_core [Inhabited V] (n total : Nat) (hn : 0 < n) : Core (mkTable (V := V) n total).pairs :=
+  ((readInv_iff _).mp (new_inv (V := V) n hn)).1
+
+theorem mkTable_no_res [Inhabited V] (n total : Nat) (k : Int) (v : V) : ¬ Res (mkTable (V := V) n total).pairs k v := by
+  rintro ⟨s, p, hp, hd, _, _⟩
+  have := List.getElem?_eq_some_iff.mp hp
+  obtain ⟨_, heq⟩ := this
+  simp [mkTable] at heq
+  rw [← heq] at hd
+  exact hd rfl
+
+theorem resize_post [Inhabited V] (m : IM V) (hc : Core m.pairs) (size : Nat)
+    (hN : countOcc m.pairs < (if size < Gen.intMapMin then Gen.intMapMin else size)) :
+    ∃ m', m.resize size = some m' ∧ Core m'.pairs ∧ m'.total = m.total ∧
+      countOcc m'.pairs = countOcc m.pairs ∧
+      m'.size = (if size < Gen.intMapMin then Gen.intMapMin else size) ∧
+      ∀ k v, Res m'.pairs k v ↔ Res m.pairs k v := by
+  rw [resize_unfold]
+  generalize hNdef : (if size < Gen.intMapMin then Gen.intMapMin else size) = N at hN ⊢
+  by_cases heq : N = m.size
+  · simp only [heq, if_true]
+    exact ⟨m, rfl, hc, rfl, rfl, rfl, fun _ _ => Iff.rfl⟩
+  · simp only [heq, if_false]
+    have hNpos : 0 < N := by omega
+    have hlen : (mkTable (V := V) N m.total).pairs.length = N := by simp [mkTable]
+    obtain ⟨acc', hfold, hc', hl', ht', hcnt', hres'⟩ := fold_insert (m.pairs.filter occB) (mkTable N m.total)
+      (mkTable_core N m.total hNpos)
+      (by rw [hlen, filter_len]; simp only [mkTable, countOcc_replicate_empty]; omega)
+      (filter_nodup_keys m.pairs hc.unique)
+      (by
+        intro p _ s q hq hqd
+        exact absurd ⟨s, q, hq, hqd, rfl, rfl⟩ (mkTable_no_res N m.total q.key q.value))
+    refine ⟨acc', hfold, hc', by rw [ht']; rfl, ?_, by unfold IM.size; rw [hl', hlen], ?_⟩
+    · rw [hcnt', filter_len]; simp only [mkTable, countOcc_replicate_empty]; omega
+    · intro k v
+      rw [hres' k v]
+      constructor
+      · rintro (h | ⟨p, hp, hk, hv⟩)
+        · exact absurd h (mkTable_no_res N m.total k v)
+        · obtain ⟨s, hs, hd⟩ := (mem_filter_iff m.pairs p).mp hp
+          exact ⟨s, p, hs, hd, hk, hv⟩
+      · rintro ⟨s, p, hs, hd, hk, hv⟩
+        exact Or.inr ⟨p, (mem_filter_iff m.pairs p).mpr ⟨s, hs, hd⟩, hk, hv⟩
+
+theorem probe_found_sound (pairs : List (Pair V)) (key : Int) : ∀ (fuel i r : Nat),
+    probe pairs key fuel i = some (.found r) → ∃ p, pairs[r]? = some p ∧ p.distance ≠ 0 ∧ p.key = key := by
+  intro fuel
+  induction fuel with
+  | zero => intro i r h; simp [probe] at h
+  | succ fuel ih =>
+    intro i r h
+    rw [probe] at h
+    cases hp : pairs[i % pairs.length]? with
+    | none => simp [hp] at h
+    | some p =>
+      simp only [hp] at h
+      by_cases hd : p.distance = 0
+      · simp [hd] at h
+      · simp only [hd, if_false] at h
+        by_cases hk : p.key = key
+        · simp only [hk, if_true, Option.some.injEq, Probe.found.injEq] at h
+          subst h
+          exact ⟨p, hp, hd, hk⟩
+        · simp only [hk, if_false] at h
+          exact ih _ r h
+
+/-- **set_post.** `Set` preserves the table invariant, and afterwards the residents are the old
+    ones with `k ↦ v` added or overwritten — across the displacement walk and across a resize. -/
+theorem set_post [Inhabited V] (m : IM V) (h : Inv m) (k : Int) (v : V) :
+    ∃ m', m.set k v = some m' ∧ Inv m' ∧
+      ∀ k' w, Res m'.pairs k' w ↔ ((k' = k ∧ w = v) ∨ (k' ≠ k ∧ Res m.pairs k' w)) := by
+  have hri := h.readInv
+  obtain ⟨r, hr⟩ := find_total m hri k
+  unfold IM.set
+  rw [hr]
+  cases r with
+  | found i =>
+    obtain ⟨p, hp, hpd, hpk⟩ := probe_found_sound m.pairs k _ _ i hr
+    simp only [hp]
+    refine ⟨_, rfl, ⟨core_update m.pairs h.core i p hp v, ?_, ?_, ?_⟩, ?_⟩
+    · simp only []; rw [countOcc_update m.pairs i p hp v]; exact h.total_eq
+    · have : ({ m with pairs := m.pairs.set i { p with value := v } } : IM V).max = m.max := by
+        simp [IM.max, IM.size]
+      rw [this]; exact h.load
+    · have : ({ m with pairs := m.pairs.set i { p with value := v } } : IM V).size = m.size := by
+        simp [IM.size]
+      rw [this]; exact h.room
+    · intro k' w
+      rw [res_update m.pairs h.core i p hp hpd v k' w, hpk]
+  | empty e =>
+    have hfresh : ∀ (s : Nat) (q : Pair V), m.pairs[s]? = some q → q.distance ≠ 0 → q.key ≠ k := by
+      intro s q hq hqd hk
+      have := find_present m.pairs hri s q hq hqd
+      rw [hk] at this
+      unfold IM.find IM.size at hr
+      rw [this] at hr
+      cases hr
+    obtain ⟨ps, hins, hpost⟩ := insertRaw_post m.pairs hri k v hfresh
+    simp only [hins]
+    have hresform : ∀ k' w, Res ps k' w ↔ ((k' = k ∧ w = v) ∨ (k' ≠ k ∧ Res m.pairs k' w)) := by
+      intro k' w
+      rw [hpost.res k' w]
+      constructor
+      · rintro (⟨s, q, hq, hqd, hk, hv⟩ | hkv)
+        · exact Or.inr ⟨fun e => hfresh s q hq hqd (hk.trans e), s, q, hq, hqd, hk, hv⟩
+        · exact Or.inl hkv
+      · rintro (hkv | ⟨_, hres⟩)
+        · exact Or.inr hkv
+        · exact Or.inl hres
+    have hn := h.core.size_pos
+    have hmax := max_lt_size m hn
+    have hteq := h.total_eq
+    have hload := h.load
+    have hroom := h.room
+    have hmin : Gen.intMapMin = 16 := by decide
+    have h3 : Gen.intMapMaxNum = 3 := by decide
+    have h4 : Gen.intMapMaxDen = 4 := by decide
+    by_cases hbig : m.total + 1 > (ps.length * Gen.intMapMaxNum / Gen.intMapMaxDen)
+    · -- the table grows
+      have hcond : ({ pairs := ps, total := m.total + 1 } : IM V).total > ({ pairs := ps, total := m.total + 1 } : IM V).max := by
+        simpa [IM.max, IM.size] using hbig
+      simp only [hcond, if_true]
+      have hsz : ({ pairs := ps, total := m.total + 1 } : IM V).size = m.size := by simp [IM.size, hpost.len]
+      obtain ⟨m', hrs, hc', ht', hcnt', hsize', hres'⟩ := resize_post ({ pairs := ps, total := m.total + 1 } : IM V)
+        hpost.core (({ pairs := ps, total := m.total + 1 } : IM V).size * 2) (by
+          simp only [hsz, hpost.count, hmin]
+          unfold IM.size IM.max at *
+          split <;> omega)
+      refine ⟨m', hrs, ⟨hc', ?_, ?_, ?_⟩, ?_⟩
+      · rw [ht', hcnt', hpost.count]; simp only []; omega
+      · rw [ht']; simp only []
+        unfold IM.max
+        rw [hsize', hsz, h3, h4, hmin]
+        unfold IM.size IM.max at *
+        split <;> omega
+      · rw [hsize', hsz, hmin]; unfold IM.size at *; split <;> omega
+      · intro k' w
+        rw [hres' k' w]; exact hresform k' w
+    · have hcond : ¬ (({ pairs := ps, total := m.total + 1 } : IM V).total > ({ pairs := ps, total := m.total + 1 } : IM V).max) := by
+        simpa [IM.max, IM.size] using hbig
+      simp only [hcond, if_false]
+      refine ⟨_, rfl, ⟨hpost.core, ?_, ?_, ?_⟩, hresform⟩
+      · simp only []; rw [hpost.count]; omega
+      · simp only [IM.max, IM.size]; omega
+      · simp only [IM.size, hpost.len]; exact hroom
+
+
+theorem newSize_ge (alloc : Nat) : ∀ (f s : Nat), s ≤ newSize alloc f s := by
+  intro f
+  induction f with
+  | zero => intro s; simp [newSize]
+  | succ f ih =>
+    intro s
+    simp only [newSize]
+    split
+    · have := ih (s * 2); omega
+    · omega
+
+/-- a fresh table satisfies the invariant -/
+theorem new_Inv [Inhabited V] (alloc : Nat) : Inv (new (V := V) alloc) := by
+  have hmin : Gen.intMapMin = 16 := by decide
+  have hge := newSize_ge alloc 64 Gen.intMapMin
+  have hpos : 0 < newSize alloc 64 Gen.intMapMin := by omega
+  refine ⟨mkTable_core _ 0 hpos, ?_, ?_, ?_⟩
+  · simp [new, mkTable, countOcc_replicate_empty]
+  · simp [new, mkTable]
+  · simp only [new, IM.size, mkTable, List.length_replicate]; omega
+
+/-- **set_get_same / set_get_other.** After `Set k v`, `Get k` is `v` and every other key reads
+    as before. -/
+theorem set_get_same [Inhabited V] (m m' : IM V) (h : Inv m) (k : Int) (v : V) (hs : m.set k v = some m') :
+    Inv m' ∧ m'.get k = some v := by
+  obtain ⟨m'', hs', hinv, hres⟩ := set_post m h k v
+  rw [hs] at hs'; cases hs'
+  exact ⟨hinv, (get_iff_res m' hinv k v).mpr ((hres k v).mpr (Or.inl ⟨rfl, rfl⟩))⟩
+
+theorem set_get_other [Inhabited V] (m m' : IM V) (h : Inv m) (k k' : Int) (v : V) (hs : m.set k v = some m')
+    (hne : k' ≠ k) : m'.get k' = m.get k' := by
+  obtain ⟨m'', hs', hinv, hres⟩ := set_post m h k v
+  rw [hs] at hs'; cases hs'
+  cases hg : m.get k' with
+  | none =>
+    cases hg' : m'.get k' with
+    | none => rfl
+    | some w =>
+      have := (get_iff_res m' hinv k' w).mp hg'
+      rcases (hres k' w).mp this with ⟨e, _⟩ | ⟨_, hr⟩
+      · exact absurd e hne
+      · have := (get_iff_res m h k' w).mpr hr
+        rw [hg] at this; cases this
+  | some w =>
+    exact (get_iff_res m' hinv k' w).mpr ((hres k' w).mpr (Or.inr ⟨hne, (get_iff_res m h k' w).mp hg⟩))
+
+/-- `Set` never fails under the invariant -/
+theorem set_total [Inhabited V] (m : IM V) (h : Inv m) (k : Int) (v : V) : ∃ m', m.set k v = some m' ∧ Inv m' := by
+  obtain ⟨m', hs, hinv, _⟩ := set_post m h k v
+  exact ⟨m', hs, hinv⟩
+
+/-- the specification: an association list read with "last write wins" -/
+def specGet (ops : List (Int × V)) (k : Int) : Option V := (ops.reverse.find? (·.1 = k)).map (·.2)
+
+/-- **history_refines.** Starting from a fresh table, any sequence of `Set`s succeeds, keeps the
+    invariant, and the table then answers every `Get` like the finite map with those writes. -/
+theorem history_refines [Inhabited V] (alloc : Nat) (ops : List (Int × V)) :
+    ∃ m, ops.foldlM (fun (m : IM V) kv => m.set kv.1 kv.2) (new alloc) = some m ∧ Inv m ∧
+      ∀ k, m.get k = specGet ops k := by
+  suffices hgen : ∀ (ops : List (Int × V)) (m0 : IM V) (pre : List (Int × V)), Inv m0 →
+      (∀ k, m0.get k = specGet pre k) →
+      ∃ m, ops.foldlM (fun (m : IM V) kv => m.set kv.1 kv.2) m0 = some m ∧ Inv m ∧
+        ∀ k, m.get k = specGet (pre ++ ops) k by
+    have h0 : ∀ k, (new (V := V) alloc).get k = specGet [] k := by
+      intro k
+      have hinv := new_Inv (V := V) alloc
+      cases hg : (new (V := V) alloc).get k with
+      | none => rfl
+      | some w =>
+        have := (get_iff_res _ hinv k w).mp hg
+        exact absurd this (mkTable_no_res _ 0 k w)
+    simpa using hgen ops (new alloc) [] (new_Inv alloc) h0
+  intro ops
+  induction ops with
+  | nil => intro m0 pre hinv hspec; exact ⟨m0, rfl, hinv, by simpa using hspec⟩
+  | cons kv ops ih =>
+    intro m0 pre hinv hspec
+    obtain ⟨m1, hs, hinv1⟩ := set_total m0 hinv kv.1 kv.2
+    have hspec1 : ∀ k, m1.get k = specGet (pre ++ [kv]) k := by
+      intro k
+      by_cases hk : k = kv.1
+      · subst hk
+        rw [(set_get_same m0 m1 hinv kv.1 kv.2 hs).2]
+        simp [specGet]
+      · rw [set_get_other m0 m1 hinv kv.1 k kv.2 hs hk, hspec k]
+        have : ¬ (kv.1 = k) := fun e => hk e.symm
+        simp [specGet, this]
+    obtain ⟨m, hf, hinvm, hspecm⟩ := ih m1 (pre ++ [kv]) hinv1 hspec1
+    refine ⟨m, ?_, hinvm, ?_⟩
+    · simp [List.foldlM_cons, hs, hf]
+    · intro k; rw [hspecm k]; simp
+
+end Goat.Props.C12
+
+
+#print axioms Goat.Props.C12.insertLoop_post
+#print axioms Goat.Props.C12.insertRaw_post
+#print axioms Goat.Props.C12.resize_post
+#print axioms Goat.Props.C12.set_post
+#print axioms Goat.Props.C12.new_Inv
+#print axioms Goat.Props.C12.set_get_same
+#print axioms Goat.Props.C12.set_get_other
+#print axioms Goat.Props.C12.history_refines
